@@ -5,7 +5,7 @@ ID = "C06"
 MODNAME = "c06"
 CASES_PER_SHARD = 60
 CASE_TIMEOUT = 60
-RULE = ("random histories of set-labels / set-options / compute / re-compute on ONE engine over pools of 1-3 label sets "
+RULE = ("random histories of set-labels / set-options / compute / re-compute on ONE observed engine (half of the histories also construct, configure and use bystander engines in between, which the model ignores because engines share nothing) over pools of 1-3 label sets "
         "(ties, half-integers, dense clusters, the same labels permuted, sub-lists, stale Node objects reused across layouts; half of the histories alternate between multi-layer and single-layer configurations on the same objects); after every "
         "compute the per-label (layer, position) is compared with the extracted model of a FRESH layout of the current labels "
         "and effective options. Non-trivial = a history with at least two computes of which one is multi-layer; distinct by history.")
@@ -63,8 +63,20 @@ def impl(py):
     eff = dict(py.get("init_opts") or {})
     cur = None
     outs = []
+    others = []
     for op in py["ops"]:
-        if op[0] == "opts":
+        if op[0] == "other":
+            # a bystander engine: constructed, configured and possibly used between the
+            # operations of the observed one; engines share nothing, so the model skips it
+            if op[1] == "new" or not others:
+                others.append(Force(op[2]) if op[2] is not None else Force())
+            g = others[-1]
+            if op[3]:
+                g.set_options(op[3])
+            if op[4] is not None:
+                g.nodes([Node(p, w, data=None) for p, w in op[4]])
+                g.compute()
+        elif op[0] == "opts":
             force.set_options(op[1])
             eff.update(op[1])
         elif op[0] == "nodes":
@@ -135,6 +147,8 @@ def _history_call(py, adjust):
         ops.append([1] + _enc_update(py["init_opts"]))
         eff.update(py["init_opts"])
     for op in py["ops"]:
+        if op[0] == "other":
+            continue
         if op[0] == "opts":
             ops.append([1] + _enc_update(op[1]))
             eff.update(op[1])
@@ -237,6 +251,22 @@ def _opt_update(rng):
     return o
 
 
+def _sprinkle_others(rng, ops):
+    """insert operations on bystander engines (op "other": construct / re-configure /
+    lay out unrelated labels) between the operations of the observed engine"""
+    if rng.random() < 0.5:
+        return ops
+    ops = list(ops)
+    for _ in range(rng.randrange(1, 4)):
+        o = ["other", rng.choice(["new", "same"]),
+             _opt_update(rng) if rng.random() < 0.6 else None,
+             _opt_update(rng) if rng.random() < 0.5 else None,
+             [[rng.randrange(0, 300), rng.choice([10, 40, 50])] for _i in range(rng.choice([2, 6, 12]))]
+             if rng.random() < 0.6 else None]
+        ops.insert(rng.randrange(0, len(ops)), o)
+    return ops
+
+
 def make(rng):
     sets = [_label_set(rng) for _ in range(rng.randrange(1, 4))]
     ops = []
@@ -257,7 +287,7 @@ def make(rng):
             ops.append(["compute"])
     if ops[-1][0] != "compute":
         ops.append(["compute"])
-    py = {"sets": sets, "init_opts": init, "ops": ops}
+    py = {"sets": sets, "init_opts": init, "ops": _sprinkle_others(rng, ops)}
     return {"kind": "history", "py": py, "model": _model_calls(py)}
 
 
@@ -304,7 +334,7 @@ def make_crowded(rng):
                 perm = perm[:max(1, len(perm) // 2)]      # a smaller list sharing the Node objects
             ops.append(["nodes", si, perm])
         ops.append(["compute"])
-    py = {"sets": sets, "init_opts": init, "ops": ops}
+    py = {"sets": sets, "init_opts": init, "ops": _sprinkle_others(rng, ops)}
     return {"kind": "crowded_history", "py": py, "model": _model_calls(py)}
 
 
@@ -516,7 +546,7 @@ def shrink_candidates(case):
     ops = py["ops"]
     for i in range(len(ops) - 1):
         new = ops[:i] + ops[i + 1:]
-        if new and new[0][0] != "compute" and any(o[0] == "nodes" for o in new):
+        if new and any(o[0] == "nodes" for o in new):
             first_nodes = [j for j, o in enumerate(new) if o[0] == "nodes"][0]
             if all(o[0] != "compute" for o in new[:first_nodes]):
                 q = dict(py)
